@@ -40,12 +40,18 @@ type C20Sc struct {
 	Queries     []C20Query
 	Traversal   string // none | bootstrap | announce
 	Nodes       int
+	// Prelude: this many inbound queries are answered first; then the node is left alone until the
+	// limiter has refilled completely, and only then does the scenario proper start (wait-to-reply off)
+	Prelude int
+	// ShortEvery: every n-th rated datagram is reported by the socket as written one byte short, with
+	// no error (0 = never)
+	ShortEvery int
 }
 
-var c20Rates = []float64{1e-6, 5, 50, 500}
+var c20Rates = []float64{1e-6, 5, 50, 500, 20}
 
 func genC20(t *rapid.T) C20Sc {
-	sc := C20Sc{RateIdx: uniformInt(t, len(c20Rates), "rate"), Burst: pick(t, "burst", 0, 1, 3, 3, 25), WaitToReply: rapid.Bool().Draw(t, "wait")}
+	sc := C20Sc{RateIdx: uniformInt(t, len(c20Rates), "rate"), Burst: pick(t, "burst", 0, 1, 3, 3, 25, 4, 8), WaitToReply: rapid.Bool().Draw(t, "wait")}
 	sc.Flood = pick(t, "flood", 0, 10, 40, 150, 600)
 	sc.Sources = 1 + uniformInt(t, 200, "sources")
 	nm := 1 + uniformInt(t, 3, "nmethods")
@@ -59,6 +65,18 @@ func genC20(t *rapid.T) C20Sc {
 			NumTries: 1 + uniformInt(t, 5, "q.tries"), Dest: uniformInt(t, sc.Nodes+3, "q.dest"), WriteFails: uniformInt(t, 5, "q.fail") == 0})
 	}
 	sc.Traversal = pick(t, "trav", "none", "none", "bootstrap", "announce")
+	if uniformInt(t, 3, "hasprelude") == 0 {
+		sc.Prelude = 1 + uniformInt(t, 7, "prelude")
+		if uniformInt(t, 3, "prelude.binding") > 0 {
+			// make the budget after the quiet period the binding constraint: a refill that completes within
+			// a second, then a flood well beyond the burst
+			sc.Burst, sc.RateIdx, sc.WaitToReply = pick(t, "prelude.burst", 4, 8, 25), pick(t, "prelude.rate", 2, 4), false
+			sc.Flood = pick(t, "prelude.flood", 40, 150)
+		}
+	}
+	if uniformInt(t, 4, "short") == 0 {
+		sc.ShortEvery = 1 + uniformInt(t, 3, "shortevery")
+	}
 	if sc.WaitToReply && (sc.RateIdx == 0 || (sc.RateIdx < 3 && sc.Flood > 40)) {
 		// replies waiting for a token that never comes would outlive the case
 		sc.WaitToReply = false
@@ -88,6 +106,7 @@ func runC20(sc C20Sc, c *kit.Case) *kit.Violation {
 		what string
 	}
 	var ratedWrites []rated
+	lastRated := -1
 	offered := 0
 	net1.FailWrite = func(o simnet.Out, m OutMsg) error {
 		mu.Lock()
@@ -114,11 +133,20 @@ func runC20(sc C20Sc, c *kit.Case) *kit.Violation {
 		}
 		if isRated {
 			ratedWrites = append(ratedWrites, rated{o.At, m.Describe()})
+			lastRated = o.Seq
 		}
 		return nil
 	}
-	// 1. the flood: one half before the outbound queries start, the other after they have returned
+	if sc.ShortEvery > 0 {
+		c.Label("short-writes")
+		sv.C.ShortWrite = func(o simnet.Out) bool {
+			mu.Lock()
+			defer mu.Unlock()
+			return o.Seq == lastRated && len(ratedWrites)%sc.ShortEvery == 0
+		}
+	}
 	sender := [20]byte{0xf1}
+	// 1. the flood: one half before the outbound queries start, the other after they have returned
 	flood := func(from, to int) {
 		for i := from; i < to; i++ {
 			s := i % sc.Sources
@@ -127,6 +155,26 @@ func runC20(sc C20Sc, c *kit.Case) *kit.Violation {
 			sv.C.Inject(src, mkQuery([]byte(fmt.Sprintf("f%d", i)), method, mkArgs(sender, BKV{K: "target", V: bs(make([]byte, 20))}, BKV{K: "info_hash", V: bs(make([]byte, 20))})))
 			offered++
 		}
+	}
+	// 0. prelude and quiet period: at the second barrier nothing is between taking a token and writing, and
+	// the limiter holds at most `burst` tokens, so from then on the budget is burst + rate x elapsed again
+	tQuiet := t0
+	if refill := float64(sc.Burst) / r; sc.Prelude > 0 && !sc.WaitToReply && sc.Burst > 0 && refill <= 1.3 {
+		for i := 0; i < sc.Prelude; i++ {
+			src := &net.UDPAddr{IP: net.IP{97, 0, 0, byte(1 + i)}, Port: 1900 + i}
+			sv.C.Inject(src, mkQuery([]byte(fmt.Sprintf("p%d", i)), "ping", mkArgs(sender)))
+		}
+		if err := sv.C.Quiesce(30 * time.Second); err != nil {
+			c.Inconclusive = err.Error()
+			return nil
+		}
+		time.Sleep(time.Duration((refill + 0.03) * float64(time.Second)))
+		if err := sv.C.Quiesce(30 * time.Second); err != nil {
+			c.Inconclusive = err.Error()
+			return nil
+		}
+		tQuiet = time.Now()
+		c.Label("prelude-then-refill")
 	}
 	flood(0, sc.Flood/2)
 	// 2. outbound queries, concurrently with the flood
@@ -213,15 +261,26 @@ func runC20(sc C20Sc, c *kit.Case) *kit.Violation {
 	defer mu.Unlock()
 	// the prefix bound: the k-th rated write happened no earlier than the budget allows
 	sort.SliceStable(ratedWrites, func(i, j int) bool { return ratedWrites[i].at.Before(ratedWrites[j].at) })
-	for k, w := range ratedWrites {
-		allowed := float64(sc.Burst) + r*w.at.Sub(t0).Seconds() + 1e-6
-		// Tolerance: +1 for the limiter's float rounding, and rate x 20 ms because golang.org/x/time/rate itself
-		// over-issues under preemption: Allow() reads the clock before it takes the limiter's lock, a caller that
-		// is descheduled in between moves the limiter's clock backwards, and the next caller is credited that
-		// interval a second time (seen once in 6 400 thorough-tier cases on a saturated machine: 36 sends where
-		// 34.9 + 1 were due, rate 500/s). With the non-refilling limiter the tolerance is zero.
-		if float64(k+1) > allowed+1+r*0.02 {
-			return kit.Violatef("C20:send-budget-exceeded", "rated datagram #%d was written %.6f s after the limiter (rate %g/s, burst %d) was created; the budget allows at most %.3f by then: %s", k+1, w.at.Sub(t0).Seconds(), r, sc.Burst, allowed, w.what)
+	for _, base := range []time.Time{t0, tQuiet} {
+		k := 0
+		for _, w := range ratedWrites {
+			if w.at.Before(base) {
+				continue
+			}
+			k++
+			allowed := float64(sc.Burst) + r*w.at.Sub(base).Seconds() + 1e-6
+			// Tolerance: +1 for the limiter's float rounding, and rate x 20 ms because golang.org/x/time/rate itself
+			// over-issues under preemption: Allow() reads the clock before it takes the limiter's lock, a caller that
+			// is descheduled in between moves the limiter's clock backwards, and the next caller is credited that
+			// interval a second time (seen once in 6 400 thorough-tier cases on a saturated machine: 36 sends where
+			// 34.9 + 1 were due, rate 500/s). With the non-refilling limiter the tolerance is zero.
+			if float64(k) > allowed+1+r*0.02 {
+				since := "the limiter was created"
+				if base != t0 {
+					since = "a quiescent instant at which the limiter had been left alone long enough to be full"
+				}
+				return kit.Violatef("C20:send-budget-exceeded", "rated datagram #%d since %s was written %.6f s after it (rate %g/s, burst %d); the budget allows at most %.3f by then: %s", k, since, w.at.Sub(base).Seconds(), r, sc.Burst, allowed, w.what)
+			}
 		}
 	}
 	if sc.RateIdx == 0 && len(ratedWrites) > sc.Burst {
